@@ -189,7 +189,7 @@ def run_t1(rep: Report, modnames, pid=None, quick=True, monitor_cases=200):
         else:
             items.append((tuple(modnames), c.key, False))
     results = {}
-    for st, r in pmap(_verify_one, items, chunk=1):
+    for st, r in pmap(_verify_one, items, chunk=1, fresh=True):
         if st != "ok":
             rep.crash(r)
             continue
@@ -218,7 +218,7 @@ def run_t1(rep: Report, modnames, pid=None, quick=True, monitor_cases=200):
         for t, r in results.items()
         if r["status"] == "ok" and monitors.get(t, (0, None))[1] is None and any(o["status"] == "unknown" for o in r["obligations"])
     ]
-    for st, r in pmap(_verify_one, again, chunk=1):
+    for st, r in pmap(_verify_one, again, chunk=1, fresh=True):
         if st == "ok":
             results[r["target"]] = r
     for a in ENCODING_ASSUMPTIONS:
@@ -304,7 +304,7 @@ def write_baseline_counts(modnames):
     reg, cs = load_contracts(modnames)
     out = {}
     items = [(tuple(modnames), c.key, False) for c in cs]
-    for st, r in pmap(_verify_one, items, chunk=1):
+    for st, r in pmap(_verify_one, items, chunk=1, fresh=True):
         if st == "ok" and r["status"] == "ok":
             out[r["target"]] = len(r["obligations"])
     try:
@@ -324,7 +324,7 @@ def write_baseline(modnames):
     except (OSError, ValueError):
         baseline = {}
     items = [(tuple(modnames), c.key, True) for c in cs]
-    for st, r in pmap(_verify_one, items, chunk=1):
+    for st, r in pmap(_verify_one, items, chunk=1, fresh=True):
         if st == "ok" and r["status"] == "ok":
             baseline[r["target"]] = sorted({o["label"] for o in r["obligations"] if o["status"] == "discharged"})
     with open(BASELINE, "w") as f:
